@@ -48,6 +48,7 @@ type PropConf struct {
 	Bounds      map[string]string `json:"bounds_text"`
 	FmtInts     bool              `json:"fmt_ints"`
 	HashInj     bool              `json:"hash_injective"`
+	StubText    []string          `json:"stub_text"`
 	Sched       bool              `json:"sched"`            // harnesses start goroutines: native builds use the schedule-replay instrumentation
 	SchedPkgs   []string          `json:"sched_instrument"` // extra package import paths to instrument (the harness packages always are)
 	MaxPreempt  int               `json:"max_preempt"`
@@ -528,7 +529,14 @@ func cmdCheck(args []string) int {
 		for _, f := range pc.Merge {
 			mergeSet[f] = true
 		}
-		return b, sx.Config{FmtInts: pc.FmtInts, HashInjective: pc.HashInj, MaxPreempt: pc.MaxPreempt, NoIfConv: os.Getenv("VERIF_NOIFCONV") != "", Merge: mergeSet, Unwind: b.Unwind, MaxSteps: b.Steps, MaxPaths: b.MaxPaths, MaxTime: maxTime, SolverKind: *solverKind, SolverMS: b.SolverMS,
+		var stubSet map[string]bool
+		if len(pc.StubText) > 0 {
+			stubSet = map[string]bool{}
+			for _, f := range pc.StubText {
+				stubSet[f] = true
+			}
+		}
+		return b, sx.Config{StubText: stubSet, FmtInts: pc.FmtInts, HashInjective: pc.HashInj, MaxPreempt: pc.MaxPreempt, NoIfConv: os.Getenv("VERIF_NOIFCONV") != "", Merge: mergeSet, Unwind: b.Unwind, MaxSteps: b.Steps, MaxPaths: b.MaxPaths, MaxTime: maxTime, SolverKind: *solverKind, SolverMS: b.SolverMS,
 			BranchMS: b.BranchMS, Tier: tierN}
 	}
 	// explore all harnesses of a package concurrently
